@@ -131,7 +131,18 @@ class Evaluator:
                 self._assign(t, v, env)
         elif isinstance(st, ast.AugAssign):
             cur = self._expr(_as_load(st.target), env)
-            v = BINOPS[type(st.op)](cur, self._expr(st.value, env))
+            rhs = self._expr(st.value, env)
+            try:
+                if isinstance(st.op, ast.Add) and isinstance(cur, list):
+                    cur.extend(rhs)            # list += iterable mutates in place (aliases see it), unlike list + list
+                    v = cur
+                elif isinstance(st.op, ast.BitOr) and isinstance(cur, set):
+                    cur |= rhs
+                    v = cur
+                else:
+                    v = BINOPS[type(st.op)](cur, rhs)
+            except (TypeError, ValueError, ZeroDivisionError) as ex:
+                raise Raised(type(ex).__name__)
             self._assign(st.target, v, env)
         elif isinstance(st, ast.AnnAssign):
             if st.value is not None:
@@ -283,7 +294,12 @@ class Evaluator:
         if isinstance(e, ast.IfExp):
             return self._expr(e.body if self._expr(e.test, env) else e.orelse, env)
         if isinstance(e, (ast.Tuple, ast.List, ast.Set)):
-            vals = [self._expr(x, env) for x in e.elts]
+            vals = []
+            for x in e.elts:
+                if isinstance(x, ast.Starred):
+                    vals.extend(list(self._expr(x.value, env)))
+                else:
+                    vals.append(self._expr(x, env))
             return tuple(vals) if isinstance(e, ast.Tuple) else (vals if isinstance(e, ast.List) else set(vals))
         if isinstance(e, ast.Dict):
             return {self._expr(k, env): self._expr(v, env) for k, v in zip(e.keys, e.values)}
@@ -315,14 +331,28 @@ class Evaluator:
             if self.obj_types and isinstance(base, self.obj_types) and hasattr(base, e.attr) and not callable(getattr(base, e.attr)):
                 return getattr(base, e.attr)
             raise Unsupported(f"attribute {ast.unparse(e)}")
-        if isinstance(e, (ast.ListComp, ast.GeneratorExp)) and len(e.generators) == 1 and not e.generators[0].is_async:
-            g = e.generators[0]
+        if isinstance(e, (ast.ListComp, ast.GeneratorExp, ast.SetComp, ast.DictComp)) and not any(g.is_async for g in e.generators):
             res = []
-            sub = dict(env)
-            for item in self._expr(g.iter, env):
-                self._assign(g.target, item, sub)
-                if all(self._expr(c, sub) for c in g.ifs):
-                    res.append(self._expr(e.elt, sub))
+
+            def gen(k, sub):
+                if k == len(e.generators):
+                    if isinstance(e, ast.DictComp):
+                        res.append((self._expr(e.key, sub), self._expr(e.value, sub)))
+                    else:
+                        res.append(self._expr(e.elt, sub))
+                    return
+                g = e.generators[k]
+                for item in self._expr(g.iter, sub):
+                    self._tick()
+                    inner = dict(sub)
+                    self._assign(g.target, item, inner)
+                    if all(self._expr(c, inner) for c in g.ifs):
+                        gen(k + 1, inner)
+            gen(0, dict(env))
+            if isinstance(e, ast.SetComp):
+                return set(res)
+            if isinstance(e, ast.DictComp):
+                return dict(res)
             return res
         if isinstance(e, ast.Lambda):
             params = [a.arg for a in e.args.args]
